@@ -1,7 +1,7 @@
 use std::borrow::Cow;
 use std::fmt::Display;
 
-use anyhow::{bail, Result};
+use anyhow::{bail, Context, Result};
 
 use crate::ast::Value;
 use crate::instruction;
@@ -414,7 +414,7 @@ pub fn number_from_string(string: &str, rule: Rule) -> Result<Number> {
         }
         Rule::byte => Number::Byte(
             u8::from_str_radix(&as_str[2..], 2)
-                .expect("parser allowed a non-standard byte literal")
+                .context("a byte literal holds at most 8 binary digits")?
                 .to_string(),
         ),
         _ => bail!("non-number rule"),
